@@ -170,7 +170,7 @@ def gen(rng, tier):
 def gen_failing(rng, tier):
     """makegateway calls that fail must leave no process behind (after the group was terminated)."""
     why = rng.choice(["id-taken-auto", "id-taken-explicit", "unknown-via", "missing-python", "ssh-nohost",
-                      "dies-in-bootstrap", "config-nice-invalid", "config-chdir-fails"])
+                      "dies-in-bootstrap", "config-nice-invalid", "config-chdir-fails", "id-race"])
     actors = [{"side": "i", "gw": 0, "chan": None, "ops": []}]
     main = actors[0]["ops"]
     specs = []
@@ -190,6 +190,17 @@ def gen_failing(rng, tier):
     elif why == "ssh-nohost":
         specs = ["popen//id=a"]
         main.append(["makegateway", "ssh=nohost.invalid//id=b"])
+    elif why == "id-race":
+        # three tasks ask for the same explicit id at the same time (one of them twice): exactly the calls that
+        # are refused must not leave a worker behind, whatever the interleaving
+        specs = ["popen//id=a"]
+        for t in range(2):
+            actors.append({"side": "i", "gw": 0, "chan": None,
+                           "ops": [["makegateway", "popen//id=b"]] * (2 if t == 0 else 1) + [["yield", rng.randrange(0, 4)]]})
+            main.append(["spawn", len(actors) - 1])
+        main.append(["makegateway", "popen//id=b"])
+        main.append(["join", 1, 600])
+        main.append(["join", 2, 600])
     elif why == "config-nice-invalid":
         # fails after the worker was started and bootstrapped: int('high') in the chdir/nice/env step
         specs = ["popen//id=a"]
@@ -208,7 +219,9 @@ def gen_failing(rng, tier):
     main.append(["grouplen"])
     return {"gateways": specs, "actors": actors,
             "knobs": {"pipe_cap": rng.choice([4096, 65536]), "sock_cap": 65536, "chunk": "greedy"},
-            "strategy": L.gen_strategy(rng), "preempt": [], "preempt_at": [], "faults": faults, "mode": "failing",
+            "strategy": L.gen_strategy(rng), "preempt": [],
+            "preempt_at": L.gen_preempt_at(rng, ["makegateway", "allocate_id", "_register"], maxn=30, p=0.6) if why == "id-race" else [],
+            "faults": faults, "mode": "failing",
             "why": why, "topo": "popen", "T": 1.0, "members": [(0, "w1", "member")], "progs": {}, "fault_desc": {},
             "blocked_sender": False, "depth": 0}
 
@@ -304,7 +317,7 @@ def oracle(case, res, hist):
         for aid, oi, op, s1, s2, r in mk:
             if r is None:
                 V.append(v("makegateway-blocked", case["why"], f"{op[1]} never returned"))
-            elif r[0] != "exc" and case["why"] != "dies-in-bootstrap":
+            elif r[0] != "exc" and case["why"] not in ("dies-in-bootstrap", "id-race"):
                 V.append(v("makegateway-did-not-fail", case["why"], f"{op[1]} -> {r}"))
     if never_quiet:
         V.append(v("never-quiescent", ctxkey, "the world was still busy after 400 simulated seconds"))
